@@ -35,23 +35,23 @@ def main():
         print("MACHINERY-FAILURE %s: %s" % (pid, e))
         rc = 2
     except Exception:
-        tb = traceback.format_exc()
-        frames = traceback.extract_tb(sys.exc_info()[2])
-        repo = os.path.realpath(os.environ.get("VERIF_REPO", "/repo"))
-        inner = frames[-1].filename if frames else ""
-        in_impl = any(os.path.realpath(f.filename).startswith(os.path.join(repo, "menelaus")) for f in frames[-6:])
+        if isinstance(sys.exc_info()[1], core.WorkerError):       # raised in a worker process: classified there
+            w = sys.exc_info()[1]
+            ename, etext, tb, in_impl, inner, kind_ok = w.name, w.text, w.tb, w.in_impl, w.inner, w.kind_ok
+        else:
+            ename, etext, tb, in_impl, inner, kind_ok = core.describe_exception()
+        frames = True
         if in_impl:
             # the code under test raised on a call the driver considers legal: that is a finding about the code, not about the machinery
-            ctx.violation("the implementation raised %s during a legal call sequence: %s" % (sys.exc_info()[0].__name__, str(sys.exc_info()[1])[:300]),
+            ctx.violation("the implementation raised %s during a legal call sequence: %s" % (ename, etext),
                           {"stage": "driver", "traceback": tb[-3000:], "replay": None})
             ctx.finish()
             rc = 1
-        elif frames and os.path.basename(inner).startswith(("drv_", "product.py", "lifecycle.py")) \
-                and isinstance(sys.exc_info()[1], (TypeError, AttributeError, KeyError, IndexError, ValueError, AssertionError)):
+        elif frames and os.path.basename(inner).startswith(("drv_", "product.py", "lifecycle.py")) and kind_ok:
             # a driver failed while READING what the implementation reported (a None / wrongly shaped / wrongly typed public output).  The drivers
             # are deterministic and read the unchanged code's outputs without error, so this is an observable deviation of the code under test
             ctx.violation("a public output of the implementation could not be interpreted by the driver (%s: %s)"
-                          % (sys.exc_info()[0].__name__, str(sys.exc_info()[1])[:300]), {"stage": "driver", "traceback": tb[-3000:], "replay": None})
+                          % (ename, etext), {"stage": "driver", "traceback": tb[-3000:], "replay": None})
             ctx.finish()
             rc = 1
         else:
